@@ -12,6 +12,10 @@ pub uninterp spec fn raw_of(id: int) -> int;        // numeric descriptor value
 pub uninterp spec fn borrowed_from_c(id: int) -> bool; // lent by a C caller: must never be closed
 /// rigid (static-tree units only): no syscall fails for reasons outside the static model (EMFILE, ENOMEM, ...)
 pub uninterp spec fn static_no_faults() -> bool;
+/// the text is what readlink(2) reports for a procfs magic-link ("/..." of any file, "net:[...]", "pipe:[...]", "anon_inode:...")
+pub uninterp spec fn magiclink_body(body: Seq<u8>) -> bool;
+/// (base, sub-path) names a magic-link of the handle's procfs (fd/N, exe, cwd, root, ns/*), not an ordinary symlink
+pub uninterp spec fn names_magiclink(subpath: Seq<u8>) -> bool;
 /// the descriptor has FD_CLOEXEC (C05/C11: every descriptor the library creates must have it)
 pub uninterp spec fn cloexec(fd: int) -> bool;
 
@@ -30,7 +34,7 @@ impl<'a> BorrowedFd<'a> {
         ensures r matches Ok(fd) ==> same_description(fd.id(), self.id@) && lineage(fd.id()) == lineage(self.id@)
             && is_procfs(fd.id()) == is_procfs(self.id@) && mnt_checked(fd.id()) == mnt_checked(self.id@)
             && mnt_of(fd.id()) == mnt_of(self.id@) && ino_of(fd.id()) == ino_of(self.id@)
-            && cloexec(fd.id()),
+            && cloexec(fd.id()) && witnessed(fd.id()) == witnessed(self.id@),
             static_no_faults() ==> r is Ok,
     { unimplemented!() }
 }
